@@ -49,7 +49,48 @@ def gen_drop(rng):
             'shape': rng.pick([(n,), (1, n), (n, 1)])}
 
 
+def gen_dropseq(rng):
+    """ONE Dropout layer called several times in training mode on inputs of the same shape; the outputs are back-propagated
+    later and in another order: each must go through the mask of its own forward call"""
+    n = rng.randint(2, 6)
+    k = rng.randint(2, 4)
+    order = rng.sample(list(range(k)), k)
+    if order == sorted(order): order.reverse()
+    return {'kind': 'dropseq', 'p': rng.pick([0.5, 0.25, 0.7, 0.4]), 'n': n, 'k': k, 'order': order, 'seed': rng.randrange(2 ** 31),
+            'xs': [[rng.dyadic(-4, 4) for _ in range(n)] for _ in range(k)], 'gs': [[rng.dyadic(-2, 2) for _ in range(n)] for _ in range(k)]}
+
+
+def _dropseq_impl(c):
+    sg = common.impl()
+    from synapgrad import nn
+    caps = []
+    orig = np.random.rand
+    def rand(*a):
+        r = orig(*a); caps.append(r.copy()); return r
+    np.random.seed(c['seed'])
+    np.random.rand = rand
+    try:
+        d = nn.Dropout(c['p'])
+        xs = [sg.Tensor(np.array(v, dtype=np.float64), requires_grad=True) for v in c['xs']]
+        ys = [d(x) for x in xs]                                  # all forwards first
+        for j in c['order']:                                     # backward later, in another order
+            ys[j].backward(sg.Tensor(np.array(c['gs'][j], dtype=np.float64)))
+    finally:
+        np.random.rand = orig
+    c['_us_list'] = [[float(v) for v in u.ravel()] for u in caps]
+    out = []
+    for j in range(c['k']):
+        out += [show_floats(ys[j].data.ravel()), show_floats(xs[j].grad.data.ravel())]
+    return out
+
+
 def lines_of(c):
+    if c['kind'] == 'dropseq':
+        out = []
+        for j in range(c['k']):
+            us = show_floats(c['_us_list'][j])
+            out += [f"bn drop {fbits(c['p'])} 1 {show_floats(c['xs'][j])} {us}", f"bn dropbw {fbits(c['p'])} {show_floats(c['gs'][j])} {us}"]
+        return out
     if c['kind'] == 'drop':
         return [f"bn drop {fbits(c['p'])} {int(c['training'])} {show_floats(c['xs'])} {{us}}", f"bn dropbw {fbits(c['p'])} {show_floats(c['gs'])} {{us}}"]
     out = [f"bn new {c['C']} {show_opt(lambda v: str(fbits(v)), c['mo'])} {fbits(c['eps'])} {int(c['affine'])} {int(c['track'])}"]
@@ -73,7 +114,11 @@ def cases(rng, tier):
         out.append(gen_bn(rng, tier, rng.pick(MOMENTA), rng.chance(.5), rng.chance(.7), rng.pick([2, 3, 4])))
     for _ in range(60 if tier == 'quick' else 1500):
         out.append(gen_drop(rng))
+    for _ in range(30 if tier == 'quick' else 800):
+        out.append(gen_dropseq(rng))
     for c in out:
+        if c['kind'] == 'dropseq':
+            _dropseq_impl(c)
         if c['kind'] == 'drop':
             _drop_impl(c)            # needs the captured draws to build the model's request
         c['lines'] = [l.format(us=show_floats(c.get('_us', []))) for l in lines_of(c)]
@@ -154,6 +199,9 @@ def _drop_impl(c):
 def impl(c):
     if c['kind'] == 'bn':
         return _bn_impl(c)
+    if c['kind'] == 'dropseq':
+        r = outcome(lambda: _dropseq_impl(c))
+        return [r] * (2 * c['k']) if isinstance(r, str) else r
     r = outcome(lambda: _drop_impl(c))
     if isinstance(r, str):
         return [r, r]
@@ -200,6 +248,8 @@ def compare(c, mo, io):
 
 
 def nontrivial(c):
+    if c['kind'] == 'dropseq':
+        return True
     if c['kind'] == 'drop':
         return c['training'] and 0 < c['p'] < 1
     f = [e for e in c['evs'] if e[0] == 'fwd']
@@ -209,7 +259,7 @@ def nontrivial(c):
 def distribution(cases):
     d = {}
     for c in cases:
-        k = c['kind'] + (f"/mo={c['mo']}/track={int(c['track'])}" if c['kind'] == 'bn' else f"/train={int(c['training'])}")
+        k = c['kind'] + (f"/mo={c['mo']}/track={int(c['track'])}" if c['kind'] == 'bn' else '' if c['kind'] == 'dropseq' else f"/train={int(c['training'])}")
         d[k] = d.get(k, 0) + 1
     return d
 
@@ -218,6 +268,21 @@ def distribution(cases):
 def oracle(c):
     sg = common.impl()
     from synapgrad import nn
+    if c['kind'] == 'dropseq':
+        r = outcome(lambda: _dropseq_impl(c))
+        if isinstance(r, str):
+            return {'key': {'kind': 'dropseq', 'cls': 'rejected'}, 'case': _strip(c), 'what': 'Dropout sequence raised'}
+        p = c['p']; scale = 1 / (1 - p)
+        for j in range(c['k']):
+            us = c['_us_list'][j]
+            wy = [0.0 if u <= p else x * scale for x, u in zip(c['xs'][j], us)]
+            wg = [0.0 if u <= p else g * scale for g, u in zip(c['gs'][j], us)]
+            gy, gg = common.parse_floats(r[2 * j]), common.parse_floats(r[2 * j + 1])
+            if any(abs(a - b) > 1e-12 * (1 + abs(b)) for a, b in zip(gy, wy)):
+                return {'key': {'kind': 'dropseq', 'cls': 'forward'}, 'case': _strip(c), 'what': f'call {j}: output {gy}, expected {wy}'}
+            if any(abs(a - b) > 1e-12 * (1 + abs(b)) for a, b in zip(gg, wg)):
+                return {'key': {'kind': 'dropseq', 'cls': 'backward-mask'}, 'case': _strip(c), 'what': f'call {j} of {c["k"]} on one Dropout layer, back-propagated after the later calls: gradient {gg}, its own mask gives {wg}'}
+        return None
     if c['kind'] == 'drop':
         r = outcome(lambda: _drop_impl(c))
         if isinstance(r, str):
